@@ -13,10 +13,13 @@
      unpackl <fmt=P(..)|#cls> <hex> <off>    (Serializer.unpack_serializable, before from_unpack_list)
      ulist <0|1 consume_all> <hex> <off> <fmt>…   (Serializer.unpack_serializable_list)
      old <class> pack|unpack …        (hand-written to_pack_list / from_unpack_list models, see OldPayloads)
+     dc <parents x,0,1> <names a.b/a.b.c/…> <ops i0,r1,…>   (dataclass conversion state: outcome of the last op ; names per class)
+     cell tobin|frombin|unwrap …
 -/
 import Ipv8.Base.Proto
 import Ipv8.C02.Tables
 import Ipv8.C02.OldPayloads
+import Ipv8.C02.Dataclass
 open Ipv8 Ipv8.C02 Ipv8.Proto
 
 abbrev P := List Char
@@ -302,6 +305,36 @@ def step (_ : Unit) (toks : List String) : Unit × String :=
       let cid ← cid.toNat?
       let msg ← ofHex? msg
       some (showBytes (Old.cellToBin pre cid (pt == "1") (re == "1") msg))
+    | ["cell", "unwrap", pre, cid, msg] => do
+      let pre ← ofHex? pre
+      let cid ← cid.toNat?
+      let msg ← ofHex? msg
+      some (showBytes (Old.cellUnwrap pre cid msg))
+    | ["dc", parents, names, ops] => do
+      let ps := (splitChar parents ',').map (fun t => t.toNat?)
+      let ns := (splitChar names '/').map (fun t => if t == "-" then [] else splitChar t '.')
+      let ops ← (splitChar ops ',').mapM (fun t =>
+        match t.toList with
+        | 'i' :: r => (String.ofList r).toNat?.map Dc.Op.inst
+        | 'r' :: r => (String.ofList r).toNat?.map Dc.Op.recv
+        | _ => none)
+      let all : Nat → List String := fun c => ns.getD c []
+      let parent : Nat → Option Nat := fun c => (ps.getD c none)
+      let fuel := ps.length + 1
+      let st0 := Dc.run all parent fuel ops.dropLast
+      let res := match ops.getLast? with
+        | some (.recv c) => (match Dc.recvResult all parent st0 fuel c with
+            | some a => s!"cls{a}"
+            | none => "raise")
+        | _ => "inst"
+      let st := Dc.run all parent fuel ops
+      let shown := (List.range ps.length).map (fun c =>
+        let l := Dc.lookupNames parent st fuel c
+        if l.isEmpty then "-" else ".".intercalate l)
+      some (res ++ ";" ++ "|".intercalate shown)
+    | ["dccont", k] => do
+      let c ← Dc.Container.ofString k
+      some (Dc.decodedContainer c).toString
     | ["cell", "frombin", pkt] => do
       let pkt ← ofHex? pkt
       some (match Old.cellFromBin pkt with
